@@ -164,8 +164,13 @@ def _group_integrands_by_quadrature_rule(
         tensor_factors = None
         rules = {}
         if scheme == "custom":
-            points = md["quadrature_points"]
-            weights = md["quadrature_weights"]
+            points = np.asarray(md["quadrature_points"])
+            weights = np.asarray(md["quadrature_weights"])
+            if points.ndim != 2 or weights.ndim != 1 or points.shape[0] != weights.shape[0]:
+                raise ValueError(
+                    "Custom quadrature rule: expected points of shape (num_points, dim) and "
+                    f"num_points weights, got shapes {points.shape} and {weights.shape}."
+                )
             # The rule lives on the integration entity (as for the other
             # schemes), which is what the kernel is tagged with
             custom_cell_type = cell_type
